@@ -793,10 +793,10 @@ def run(ctx):
     ctx.solve()
     ev, nt, samples = bounded_arfile(ctx)
     ctx.bounded("B-06 ArFile(listing, getmember, header fields) + interleaved member operations vs io.BytesIO",
-                ev, len(nt), "archives of 0..3 members over 7 contents (empty, odd/even sizes, with/without final "
+                ev, len(nt), "archives of 0..3 members over 9 contents (empty, odd/even sizes, lone CR, CRLF, NUL/VT/FF/high bytes, with/without final "
                 "newline, duplicate names), opened by file object and by file name; seeded interleaved operation "
                 "sequences; non-trivial = distinct (non-empty archive, open mode)",
-                "members <= 3, 7 contents, %d operations per archive" % (6 if ctx.tier == "quick" else 12), samples,
+                "members <= 3, 9 contents, %d operations per archive" % (6 if ctx.tier == "quick" else 12), samples,
                 exhaustive=(ctx.tier != "quick"))
     ctx.level = "proof"
     ctx.explanation = (
@@ -838,12 +838,12 @@ def _serialize(members):
 
 
 def _archives(tier, rng):
-    contents = [b"", b"a", b"ab", b"a\nb", b"x\n", b"\n\n", b"abc\nde"]
+    contents = [b"", b"a", b"ab", b"a\nb", b"x\n", b"\n\n", b"abc\nde", b"a\rb\r\nc", b"\x00\x0b\x0cd\x1c\x85\n\xff"]
     names = [b"m1", b"m2", b"m1"]
     import itertools
     for n in range(0, 4):
         for combo in itertools.product(range(len(contents)), repeat=n):
-            if tier == "quick" and n == 3 and rng.random() > 0.25:
+            if tier == "quick" and n == 3 and rng.random() > 0.12:
                 continue
             yield [(names[i], contents[c], 1000 + i, 10 * i, 7 + i, b"100644") for i, c in enumerate(combo)]
 
